@@ -60,6 +60,12 @@ def check(run, prog, tier):
     run.rule("C04-B9", "the system-bath operators (plain arrays given in the site basis) are combined with basis-managed data only "
                        "where the basis in force is established", minimum=6)
     rule_B9(run, prog)
+    run.rule("C04-B12", "arithmetic between basis-managed objects reads the other operand through its managed property", minimum=2)
+    rule_B12(run, prog)
+    run.rule("C04-B11", "a managed object created inside a method from the data of self owns its array (objects created inside a "
+                        "context come back in their original representation)", minimum=3)
+    from . import handout
+    handout.check_created_from_own_data(run, "C04-B11", prog)
     run.rule("C04-B10", "basis-managed classes keep nothing computed from their managed data across a change of basis (stored "
                         "results are reset by transform())", minimum=6)
     from . import memorule
@@ -739,6 +745,40 @@ def rule_B5(run, prog):
 
 MANAGED_FACTORIES = ("BasisManagedRealArray", "BasisManagedComplexArray", "basis_managed_array_property",
                      "ManagedRealArray", "ManagedComplexArray", "managed_array_property")
+
+
+def rule_B12(run, prog):
+    """'Every basis-managed object is presented in that same basis': the raw storage `_data` of an object is its
+    representation in whatever basis it was last used; only the managed property `data` brings it to the current basis.
+    An arithmetic method that combines the raw storage of two objects (`self._data += other._data`) adds the numbers of
+    two possibly different bases: inside a context where one tensor has been read and the other not, the sum is neither.
+    In the arithmetic methods (__add__, __iadd__, __sub__, __isub__, __mul__, __rmul__ ...) of classes with basis-managed
+    data the raw storage of the *other* operand is never read."""
+    from .. import memo
+    rid = "C04-B12"
+    bm = prog.cls("quantarhei.core.managers.BasisManaged")
+    n = 0
+    for cls in prog.all_classes():
+        if ".tests." in cls.qualname or bm not in [x for x in prog.mro(cls) if x is not None]:
+            continue
+        for nme, f in cls.methods.items():
+            if not (nme.startswith("__") and nme.endswith("__") and nme.strip("_") in (
+                    "add", "iadd", "radd", "sub", "isub", "rsub", "mul", "imul", "rmul", "matmul", "truediv")):
+                continue
+            params = [a.arg for a in f.node.args.args[1:]]
+            if not params:
+                continue
+            n += 1
+            prog.consulted.add(f.relpath)
+            raw = [x for x in walk_no_nested(f.node) if isinstance(x, ast.Attribute) and x.attr.startswith("_") and not x.attr.startswith("__")
+                   and isinstance(x.value, ast.Name) and x.value.id in params and x.attr in ("_data",)]
+            run.obligation(rid, f.short, not raw, key="other-operand-through-the-managed-property",
+                           message="%s reads the raw storage of its other operand (`%s`): that array is the operand's representation in "
+                                   "the basis it was last used in, not in the current one - the result mixes two bases whenever only "
+                                   "one of the operands has been read inside the present context" % (f.short, norm(raw[0]) if raw else ""),
+                           loc=f.loc(raw[0]) if raw else f.loc(f.node))
+    if n < 2:
+        raise AnalysisError("C04-B12: only %d arithmetic methods of basis-managed classes found" % n)
 
 
 def rule_B6(run, prog):
